@@ -1,5 +1,5 @@
 """
-Correspondence probes for the bookkeeping models (Lean: PGModel/Cache.lean, Share.lean, Serialize.lean, Inference.lean, Validate.lean, Api.lean, Memo.lean):
+Correspondence probes for the bookkeeping models (Lean: PGModel/Cache.lean, Share.lean, Serialize.lean, Inference.lean, Validate.lean, Api.lean, Memo.lean, Marginals.lean):
 random operation histories / requests are replayed on the REAL objects and on the model through the driver commands
 `cache`, `share`, `serial`, `infer`, `validate`, `api`, `memo`; answers are diffed. Used by props/c17.py, c19.py, c20.py (ctx.corr_break on mismatch).
 """
@@ -1365,6 +1365,185 @@ def serial_fields(ctx, rng, sv='c', gv='i'):
     return line
 
 
+# ------------------------------------------------------------------------------------------ marginal assembly (C12 / C06)
+_MARG_REL = 1e-6            # of the raw-moment scale (mean resp. second raw moment of the total statistic), as C01 / C12
+_MARG_VL_MAX = 45           # Van Loan dimension (order 2: three blocks) of the model evaluation
+
+
+def _marg_cfg(rng):
+    """2-3 demes n <= 3 (one locus, any coalescent model), or two loci n <= 3 in one deme (Kingman); 1-2 epochs"""
+    import gen
+    from props import p2util as U
+    two = rng.random() < 0.45
+    for _ in range(200):
+        cfg = gen.rand_cfg(rng, n_max=3, demes_max=1 if two else 3, epochs_max=2, loci=2 if two else 1)
+        if two or len(cfg['n']) >= 2:
+            break
+    if two and rng.random() < 0.4:
+        # independent or partially independent locus trees: no recombination, lineages start (partly) unlinked
+        cfg['r'] = 0.0
+        cfg['n_unl'] = rng.choice([1, sum(cfg['n'].values())])
+    U.make_absorbing(cfg)
+    if rng.random() < 0.4:
+        cfg['end_time'] = float(2.0 ** rng.randint(-1, 4))
+    return cfg
+
+
+def _marg_parse(ans):
+    """`total m v | means … | vars … | cov r ; r | corr r ; r | getcov r ; r | getcorr r ; r`  ->  dict of Fractions (corr / getcorr:
+    floats or the exception name); `cov[i][j] = get_cov(j, i)`, `getcov[i][j] = get_cov(i, j)`"""
+    out = {}
+    for sec in ans.split(' | '):
+        head, _, body = sec.partition(' ')
+        if head in ('total', 'means', 'vars'):
+            out[head] = [Fraction(t) for t in body.split()]
+        elif head in ('cov', 'getcov'):
+            out[head] = [[Fraction(t) for t in row.split()] for row in body.split(' ; ')]
+        elif head == 'corr':
+            out[head] = body if body.endswith('Error') else [[float(Fraction(t)) for t in row.split()] for row in body.split(' ; ')]
+        elif head == 'getcorr':
+            out[head] = [[t if t.endswith('Error') else float(Fraction(t)) for t in row.split()] for row in body.split(' ; ')]
+    return out
+
+
+def _marg_exc(f):
+    try:
+        return float(f())
+    except Exception as e:          # noqa: the NAME of the exception is the observable
+        return type(e).__name__
+
+
+def marginals_probe(ctx, rng, variant='current'):
+    """The ASSEMBLY of the per-deme / per-locus observables (Lean: PGModel/Marginals.lean, driver command `marginals`) against
+    the real `MarginalDemeDistributions` / `MarginalLocusDistributions`: for tree height and total branch length of a small
+    random configuration, `dist.demes[p].mean / .var`, `dist.demes.cov` (read in BOTH index orders), every `get_cov(a, b)` and
+    `get_cov(b, a)`, every `get_corr(a, b)` and the `corr` matrix (where the variances are not tiny), the loci analogues, and
+    the exceptions of `get_cov` / `get_corr` / `[...]` for a part that does not exist are compared with the model's answer
+    (model moments: fixed-point exponential at the same end time; tolerance 1e-6 of the raw-moment scale).  Nothing is compared
+    when PhaseGen logged a warning or the horizon is ill-scaled.  `variant` selects the model variant (seeded defects of
+    PGModel/Marginals.lean; development only)."""
+    pg = C.import_phasegen()
+    import conv
+    from props import p2util as U
+    cfg = _marg_cfg(rng)
+    drv = C.driver()
+    while True:
+        k_model = conv.setup_model(drv, cfg, 'lc')
+        if 3 * k_model <= _MARG_VL_MAX:
+            break
+        big = max(cfg['n'], key=lambda p: cfg['n'][p])          # shrink the sample until the Van Loan matrix is small
+        cfg['n'][big] -= 1
+        if sum(cfg['n'].values()) < 2:
+            ctx.count('marginals:too-large')
+            return None
+    two = cfg.get('loci', 1) == 2
+    names = conv.cfg_names(cfg)
+    coal = conv.make_coalescent(pg, cfg)
+    real = {}
+    with U.Guard() as g:
+        T = float(coal.tree_height.t_max)
+        pops = list(coal.lineage_config.pop_names)
+        for nm, dist in (('th', coal.tree_height), ('tbl', coal.total_branch_length)):
+            fams = [('demes', dist.demes, pops)] + ([('loci', dist.loci, [0, 1])] if two else [])
+            w = dict(mean=float(dist.mean), var=float(dist.var), m2=float(dist.m2))
+            for fam, M, keys in fams:
+                q = dict(means=[float(M[p].mean) for p in keys], vars=[float(M[p].var) for p in keys],
+                         cov=np.array(M.cov, dtype=float),
+                         get_cov={(i, j): float(M.get_cov(a, b)) for i, a in enumerate(keys) for j, b in enumerate(keys)})
+                ok = [v > 1e-6 * max(abs(w['m2']), 1e-300) for v in q['vars']]
+                q['get_corr'] = {(i, j): float(M.get_corr(a, b)) for i, a in enumerate(keys) for j, b in enumerate(keys)
+                                 if ok[i] and ok[j]}
+                q['corr'] = np.array(M.corr, dtype=float) if all(ok) else None
+                # a part that does not exist (index `len(keys)` on the model side)
+                ghost = 'no_such_pop' if fam == 'demes' else len(keys)
+                q['ghost'] = dict(getcov=_marg_exc(lambda: M.get_cov(keys[0], ghost)), getcorr=_marg_exc(lambda: M.get_corr(ghost, keys[0])),
+                                  sub=_marg_exc(lambda: M[ghost].mean))
+                w[fam] = q
+            real[nm] = w
+    if g.warned:
+        ctx.count('marginals:warned'); ctx.skipped += 1
+        return None
+    info = dict(cfg=cfg, T=T, pops=pops)
+    if g.error:
+        ctx.corr_break('marginals', why='the real marginal layer raised although no warning was logged', error=g.error, trace=g.trace, **info)
+        return info
+    if U.ill_scaled(T, real['th']['mean']):
+        ctx.count('marginals:ill-scaled-horizon'); ctx.skipped += 1
+        return None
+    if sorted(pops) != sorted(names):
+        ctx.corr_break('marginals', why='deme axis', model_axis=names, real_axis=pops, **info)
+        return info
+    ctx.count('marginals-cases'); ctx.count(f'marginals:demes{len(pops)}'); ctx.count(f'marginals:loci{2 if two else 1}')
+    ctx.count(f'marginals:n{sum(cfg["n"].values())}'); ctx.count(f'marginals:{cfg["model"][0]}')
+    if two and cfg.get('r', 0) == 0 and cfg.get('n_unl', 0) > 0:
+        ctx.count('marginals:unlinked-start-without-recombination')
+    bad = []
+
+    def cmp(what, model, obs, scale, **kw):
+        tol = _MARG_REL * scale
+        ctx.count('marginals-values-compared')
+        if not (np.isfinite(obs) and abs(float(model) - obs) <= tol):
+            bad.append(dict(what=what, model=float(model), real=float(obs), tolerance=tol, **kw))
+
+    for nm in ('th', 'tbl'):
+        w = real[nm]
+        s1, s2 = max(abs(w['mean']), 1e-300), max(abs(w['m2']), 1e-300)
+        for fam in ('demes', 'loci') if two else ('demes',):
+            q = w[fam]
+            ans = drv.ask(f'marginals {fam} {nm} {C.rs(T)} {variant}')
+            m = _marg_parse(ans)
+            # model index of the real key number i (demes are matched by NAME, loci by number)
+            ix = [names.index(p) for p in pops] if fam == 'demes' else [0, 1]
+            D = len(ix)
+            cmp(f'{nm}.mean', m['total'][0], w['mean'], s1)
+            cmp(f'{nm}.var', m['total'][1], w['var'], s2)
+            for i in range(D):
+                cmp(f'{nm}.{fam}[{i}].mean', m['means'][ix[i]], q['means'][i], s1)
+                cmp(f'{nm}.{fam}[{i}].var', m['vars'][ix[i]], q['vars'][i], s2)
+            if q['cov'].shape != (D, D):
+                bad.append(dict(what=f'{nm}.{fam}.cov shape', real=list(q['cov'].shape), model=[D, D]))
+                continue
+            mv = [float(m['vars'][ix[i]]) for i in range(D)]
+            cur = variant == 'current'
+            if isinstance(m['corr'], str) != (q['corr'] is None) and cur:
+                ctx.count('marginals:corr-matrix-defined-on-one-side-only')     # tiny variance on one side: not compared
+            for i in range(D):
+                for j in range(D):
+                    # same layout on both sides: row = SECOND argument of get_cov
+                    cmp(f'{nm}.{fam}.cov[{i}][{j}]', m['cov'][ix[i]][ix[j]], q['cov'][i, j], s2)
+                    if cur:
+                        cmp(f'{nm}.{fam}.cov[{j}][{i}] (transposed read)', m['cov'][ix[i]][ix[j]], q['cov'][j, i], s2)
+                        cmp(f'{nm}.{fam}.get_cov({i},{j}) vs model cov[{j}][{i}]', m['cov'][ix[j]][ix[i]], q['get_cov'][(i, j)], s2)
+                    cmp(f'{nm}.{fam}.get_cov({i},{j})', m['getcov'][ix[i]][ix[j]], q['get_cov'][(i, j)], s2)
+                    if (i, j) in q['get_corr'] and mv[i] > 0 and mv[j] > 0:
+                        tolc = _MARG_REL * max(1.0, s2 / math.sqrt(mv[i] * mv[j]))
+                        mc = m['getcorr'][ix[i]][ix[j]]
+                        if isinstance(mc, str):
+                            bad.append(dict(what=f'{nm}.{fam}.get_corr({i},{j})', model=mc, real=q['get_corr'][(i, j)]))
+                            continue
+                        # the reference: model cov / sqrt(model var * model var) (current code), else the variant's own get_corr
+                        ref = float(m['cov'][ix[j]][ix[i]]) / math.sqrt(mv[i] * mv[j]) if cur else mc
+                        if cur and abs(mc - ref) > 1e-9 * max(1.0, abs(ref)):
+                            bad.append(dict(what=f'{nm}.{fam}: model get_corr({i},{j}) vs model cov/sqrt(var var)', model=mc, ref=ref))
+                        ctx.count('marginals-corr-compared')
+                        obs = [(f'get_corr({i},{j})', q['get_corr'][(i, j)], ref)]
+                        if q['corr'] is not None and not isinstance(m['corr'], str):
+                            obs.append((f'corr[{j}][{i}]', float(q['corr'][j, i]), ref if cur else m['corr'][ix[j]][ix[i]]))
+                        for what, o, rf in obs:
+                            if not (np.isfinite(o) and abs(o - rf) <= tolc):
+                                bad.append(dict(what=f'{nm}.{fam}.{what}', model=rf, real=o, tolerance=tolc))
+            # exceptions for a part that does not exist
+            toks = drv.ask(f'marginals {fam} {nm} {C.rs(T)} {variant} 0 {D}').split()
+            toks2 = drv.ask(f'marginals {fam} {nm} {C.rs(T)} {variant} {D} 0').split()
+            model_ghost = {k_: (v if v.endswith('Error') else 'value') for k_, v in dict(getcov=toks[1], getcorr=toks2[3], sub=toks2[5]).items()}
+            ctx.count('marginals-exceptions-compared', 3)
+            if model_ghost != {k_: (v if isinstance(v, str) else 'value') for k_, v in q['ghost'].items()}:
+                bad.append(dict(what=f'{nm}.{fam}: exceptions for a missing part', model=model_ghost, real=q['ghost']))
+    if bad:
+        ctx.corr_break('marginals', mismatches=bad[:8], n_mismatches=len(bad), **info)
+    return info
+
+
 # ------------------------------------------------------------------------------------------ pmap entry points
 def one_memo(ctx, i):
     rng = random.Random(f'{ctx.seed}-corr-memo-{i}')
@@ -1434,3 +1613,11 @@ def one_serial(ctx, i):
     for _ in range(8):
         line = serial_fields(ctx, rng, sv=os.environ.get('VERIF_SERIAL_SET', 'c'), gv=os.environ.get('VERIF_SERIAL_GET', 'i'))
     ctx.case(dict(kind='serial-fields', batch=i, last=line), f'serial-{i}')
+
+
+def one_marginals(ctx, i):
+    rng = random.Random(f'{ctx.seed}-corr-marginals-{i}')
+    info = None
+    for _ in range(3):
+        info = marginals_probe(ctx, rng, variant=os.environ.get('VERIF_MARG_VARIANT', 'current')) or info
+    ctx.case(dict(kind='marginals', batch=i, last=info), f'marginals-{i}')
